@@ -323,6 +323,7 @@ def instances(tier, seed):
     for n in ((1, 2, 3) if q else (1, 2, 3, 4)):
         out.append(Instance("mirror_polya_counts[%d]" % n, h_counts(n), [P + "PolyAFixer.count_polya_exons", P + "PolyAFixer.count_polyt_exons",
                                                                          P + "shift_polya", P + "shift_polyt"], "%d exons, symbolic positions" % n, weight=3 ** n))
+    for n in ((1, 2, 3, 4, 5) if q else (1, 2, 3, 4, 5, 6, 7)):
         out.append(Instance("mirror_search[%d]" % n, h_search(n), ["src.common:interval_bin_search", "src.common:interval_bin_search_rev",
                                                                    "src.common:sum_intervals_to_point", "src.common:sum_intervals_from_point"],
                             "%d intervals" % n, weight=2 ** n))
